@@ -23,6 +23,7 @@ import (
 	"sort"
 	"strings"
 	"sync"
+	"unicode/utf8"
 
 	"github.com/hydraide/hydraide/app/core/hydra/swamp/beacon"
 	"github.com/hydraide/hydraide/app/core/hydra/swamp/chronicler"
@@ -71,9 +72,39 @@ type wop struct {
 	KeyID    uint64 `json:"key_id,omitempty"`
 	Data     []byte `json:"-"`
 	DataLen  int    `json:"data_len,omitempty"`
+	Batch    []wop  `json:"batch,omitempty"` // kind "writes": one WriteEntries call
+	KeyClass string `json:"key_class,omitempty"`
 	// observations
 	Ok      bool `json:"ok"`
 	Flushed bool `json:"flushed,omitempty"`
+}
+
+// blockCounts reads the entries-per-block list of the file as it is now (the writer may be
+// open) from the 16-byte block headers only.
+func blockCounts(path string) []int {
+	f, err := os.Open(path)
+	if err != nil {
+		return nil
+	}
+	defer f.Close()
+	var h [64]byte
+	if _, err := f.ReadAt(h[:], 0); err != nil {
+		return nil
+	}
+	off := int64(64)
+	if h[4] == 3 {
+		off += int64(h[44]) | int64(h[45])<<8
+	}
+	var out []int
+	var bh [16]byte
+	for {
+		if _, err := f.ReadAt(bh[:], off); err != nil {
+			return out
+		}
+		cs := int64(bh[0]) | int64(bh[1])<<8 | int64(bh[2])<<16 | int64(bh[3])<<24
+		out = append(out, int(bh[8])|int(bh[9])<<8)
+		off += 16 + cs
+	}
 }
 
 type observed struct {
@@ -183,47 +214,81 @@ func resTerm(ok bool) string {
 // runW executes a writer history on the real FileWriter.
 func runW(dir string, ops []wop) observed {
 	path := filepath.Join(dir, "s.hyd")
-	var fw *v2.FileWriter
+	var fw *v2.FileWriter   // the open writer
+	var last *v2.FileWriter // the most recently closed writer object: calls on it must fail cleanly
 	for i := range ops {
 		o := &ops[i]
+		w := fw
+		if w == nil {
+			w = last
+		}
 		switch o.Kind {
 		case "open":
 			if fw != nil {
 				o.Ok = false
 				continue
 			}
-			w, err := v2.NewFileWriterWithName(path, o.MaxBlock, o.Name)
+			nw, err := v2.NewFileWriterWithName(path, o.MaxBlock, o.Name)
 			o.Ok = err == nil
 			if err == nil {
-				fw = w
+				fw = nw
 			}
 		case "write":
-			if fw == nil {
+			if w == nil {
 				o.Ok = false
 				continue
 			}
-			err := fw.WriteEntry(v2.Entry{Operation: o.Op, Key: o.Key, Data: o.Data})
+			err := w.WriteEntry(v2.Entry{Operation: o.Op, Key: o.Key, Data: o.Data})
 			o.Ok = err == nil
-			o.Flushed = err == nil && fw.BufferCount() == 0
+			o.Flushed = err == nil && w.BufferCount() == 0
+		case "writes":
+			if w == nil {
+				o.Ok = false
+				continue
+			}
+			es := make([]v2.Entry, len(o.Batch))
+			for j, b := range o.Batch {
+				es[j] = v2.Entry{Operation: b.Op, Key: b.Key, Data: b.Data}
+			}
+			c0 := w.BufferCount()
+			before := blockCounts(path)
+			err := w.WriteEntries(es)
+			o.Ok = err == nil
+			if err == nil {
+				// recover the flush decisions of the batch from the blocks it produced (M2)
+				after := blockCounts(path)
+				idx := -c0 - 1
+				for _, nb := range after[min(len(before), len(after)):] {
+					idx += nb
+					if idx >= 0 && idx < len(o.Batch) {
+						o.Batch[idx].Flushed = true
+					}
+				}
+				for j := range o.Batch {
+					o.Batch[j].Ok = true
+				}
+			}
 		case "flush":
-			if fw == nil {
+			if w == nil {
 				o.Ok = false
 				continue
 			}
-			o.Ok = fw.Flush() == nil
+			o.Ok = w.Flush() == nil
 		case "sync":
-			if fw == nil {
+			if w == nil {
 				o.Ok = false
 				continue
 			}
-			o.Ok = fw.Sync() == nil
+			o.Ok = w.Sync() == nil
 		case "close":
-			if fw == nil {
+			if w == nil {
 				o.Ok = true
 				continue
 			}
-			o.Ok = fw.Close() == nil
-			fw = nil
+			o.Ok = w.Close() == nil
+			if fw != nil {
+				last, fw = fw, nil
+			}
 		}
 	}
 	if fw != nil {
@@ -249,6 +314,22 @@ func wTerm(ops []wop, o observed, keys, pays, names *table) string {
 			}
 			e := common.App("mkL", common.N(uint64(op.Op)), tok(keys.id(op.Key), len(op.Key)), tok(pid, len(op.Data)))
 			ots = append(ots, common.App("OWrite", e, common.Bool(op.Flushed)))
+		case "writes":
+			// an accepted WriteEntries call is the sequence of its WriteEntry calls; a rejected
+			// one must have no effect at all and contributes nothing (its entries are not
+			// acknowledged, so the oracle requires that none of them shows up)
+			if op.Ok {
+				for _, b := range op.Batch {
+					pid := uint64(0)
+					if len(b.Data) > 0 {
+						pid = pays.id(string(b.Data))
+					}
+					e := common.App("mkL", common.N(uint64(b.Op)), tok(keys.id(b.Key), len(b.Key)), tok(pid, len(b.Data)))
+					ots = append(ots, common.App("OWrite", e, common.Bool(b.Flushed)))
+					rts = append(rts, "ROk")
+				}
+			}
+			continue
 		case "flush":
 			ots = append(ots, "OFlush")
 		case "sync":
@@ -274,6 +355,11 @@ func genName(rng *common.Rng) string {
 		return "s/r/" + strings.Repeat("n", 65536-4)
 	case 3:
 		return "s/r/" + strings.Repeat("n", 70000-4)
+	case 4:
+		// more than 65535 bytes but fewer characters
+		return "s/r/" + bigString(rng, keyClasses[1+rng.Intn(3)], []int{65536, 65539, 80000}[rng.Intn(3)])
+	case 5:
+		return "s/r/" + bigString(rng, keyClasses[rng.Intn(len(keyClasses)-1)], []int{4028, 4029, 4092, 65530, 65531}[rng.Intn(5)])
 	}
 	n := 1 + rng.Intn(40)
 	if rng.Chance(10) {
@@ -286,6 +372,50 @@ func genName(rng *common.Rng) string {
 	return fmt.Sprintf("san%d/realm%d/", rng.Intn(5), rng.Intn(5)) + string(b)
 }
 
+// byte lengths around every limit a length check could be written against: the 16-bit field in
+// bytes, and 65535 *characters* / UTF-16 units of 2-, 3- and 4-byte characters
+var bigLens = []int{4095, 4096, 65533, 65534, 65535, 65535, 65536, 65536, 65537, 65538, 70000, 80000, 131070, 131072, 196605, 262140}
+var keyClasses = []string{"ascii", "utf8-2", "utf8-3", "utf8-4", "ascii+1rune", "invalid-utf8", "binary"}
+
+// bigString builds a string of exactly n bytes of the given content class with a unique prefix.
+func bigString(rng *common.Rng, class string, n int) string {
+	b := make([]byte, 0, n)
+	b = append(b, fmt.Sprintf("%08d", rng.Intn(100000000))...)
+	if len(b) > n {
+		b = b[:n]
+	}
+	unit := "k"
+	switch class {
+	case "utf8-2":
+		unit = "é"
+	case "utf8-3":
+		unit = "水"
+	case "utf8-4":
+		unit = "😀"
+	case "invalid-utf8":
+		unit = "\xff"
+	}
+	switch class {
+	case "binary":
+		b = append(b, rng.Bytes(n-len(b))...)
+	case "ascii+1rune":
+		for len(b)+3 < n {
+			b = append(b, 'k')
+		}
+		if len(b)+3 == n {
+			b = append(b, "水"...)
+		}
+	default:
+		for len(b)+len(unit) <= n {
+			b = append(b, unit...)
+		}
+	}
+	for len(b) < n {
+		b = append(b, 'a')
+	}
+	return string(b)
+}
+
 func genKeys(rng *common.Rng, n int, small bool) []string {
 	seen := map[string]bool{}
 	var ks []string
@@ -294,14 +424,15 @@ func genKeys(rng *common.Rng, n int, small bool) []string {
 		if small || rng.Chance(70) {
 			l = 1 + rng.Intn(12)
 		}
-		b := rng.Bytes(l)
-		if l >= 4096 { // keep big keys cheap to print/compare: constant filler, unique prefix
-			for i := range b {
-				b[i] = 'k'
-			}
-			copy(b, fmt.Sprintf("%08d", rng.Intn(100000000)))
+		var k string
+		switch {
+		case l >= 4095:
+			k = bigString(rng, keyClasses[rng.Intn(len(keyClasses))], bigLens[rng.Intn(len(bigLens))])
+		case rng.Chance(25): // short text keys with multi-byte characters
+			k = string([]rune("é水😀kß")[rng.Intn(5)]) + fmt.Sprintf("%d", rng.Intn(1000))
+		default:
+			k = string(rng.Bytes(l))
 		}
-		k := string(b)
 		if seen[k] {
 			continue
 		}
@@ -362,6 +493,21 @@ func genW(rng *common.Rng, nops int, thorough bool) []wop {
 		case r < 18:
 			ops = append(ops, wop{Kind: "close"})
 			open()
+		case r < 26:
+			// one WriteEntries call with 1..6 entries (possibly the same key more than once)
+			nb := 1 + rng.Intn(6)
+			var batch []wop
+			for j := 0; j < nb; j++ {
+				k := keys[rng.Intn(len(keys))]
+				b := wop{Kind: "write", Op: uint8(1 + rng.Intn(3)), Key: k, KeyLen: len(k)}
+				if b.Op != v2.OpDelete {
+					seq++
+					b.Data = genPayload(rng, seq, thorough)
+					b.DataLen = len(b.Data)
+				}
+				batch = append(batch, b)
+			}
+			ops = append(ops, wop{Kind: "writes", Batch: batch})
 		default:
 			k := keys[rng.Intn(len(keys))]
 			var op uint8
@@ -382,7 +528,15 @@ func genW(rng *common.Rng, nops int, thorough bool) []wop {
 				seq++
 				data = genPayload(rng, seq, thorough)
 			}
+			if data == nil && rng.Chance(20) {
+				data = []byte{} // empty but not nil
+			}
 			ops = append(ops, wop{Kind: "write", Op: op, Key: k, KeyLen: len(k), Data: data, DataLen: len(data)})
+			if rng.Chance(3) {
+				// second use of a closed writer object: everything but Close must fail cleanly
+				ops = append(ops, wop{Kind: "close"}, wop{Kind: []string{"write", "flush", "sync", "close"}[rng.Intn(4)], Op: 1, Key: k, KeyLen: len(k), Data: []byte("late")})
+				open()
+			}
 		}
 	}
 	ops = append(ops, wop{Kind: "close"})
@@ -393,7 +547,15 @@ func nontrivialW(ops []wop) bool {
 	sets := map[string]int{}
 	over, del := false, false
 	sessions := 0
+	var flat []wop
 	for _, o := range ops {
+		if o.Kind == "writes" {
+			flat = append(flat, o.Batch...)
+		} else {
+			flat = append(flat, o)
+		}
+	}
+	for _, o := range flat {
 		switch {
 		case o.Kind == "open" && o.Ok:
 			sessions++
@@ -821,8 +983,17 @@ func main() {
 			run.Add(term, descr, nontrivialW(j.wops))
 			run.Hist("writer_" + j.tag)
 			for _, o := range j.wops {
+				if o.Kind == "writes" {
+					if o.Ok {
+						run.Hist("batch_ok")
+					} else {
+						run.Hist("batch_rejected")
+					}
+				}
 				if o.Kind == "write" {
 					switch {
+					case !o.Ok && len(o.Key) > 65535 && utf8.RuneCountInString(o.Key) <= 65535:
+						run.Hist("write_rejected_bytes>65535_runes<=65535")
 					case !o.Ok:
 						run.Hist("write_rejected")
 					case o.KeyLen >= 4095:
